@@ -127,11 +127,12 @@ def replay(path):
     return 0
 
 
-def c_stage(chk, progs, rng, nctx=2, label='program'):
+def c_stage(chk, progs, rng, nctx=2, label='program', prebuilt=False):
     """bind the emitted C of `progs` (Prog objects, compiled with 'machine') to their machines: rebuild with C output and sweep
     every state x every byte (+ end) from `nctx` data contexts.  Returns dict(states, transitions, sweeps, accepted)."""
     import shutil
-    built = runner.compile_programs([(p.name, p.src, p.args) for p in progs])
+    # prebuilt: the Prog objects already carry the emitted C of the compilation under test (C20: a compilation with a history)
+    built = list(progs) if prebuilt else runner.compile_programs([(p.name, p.src, p.args) for p in progs])
     root = runner.scratch_dir()
     out = {'states': 0, 'transitions': 0, 'sweeps': 0, 'accepted': 0, 'binaries': 0}
     try:
